@@ -74,6 +74,7 @@ func futures(r *vkit.Report) {
 	r.Floor("waiters parked before Fill that received the value", r.Table("future", "before Fill: got the value"), int64(n/2))
 	r.Floor("WaitContext calls that gave up before Fill", r.Table("future", "before Fill: gave up with ctx.Err()"), int64(n/4))
 	r.Floor("second Fill panicked", r.Table("future", "second Fill panicked"), int64(n))
+	r.Floor("value unchanged after the refused second Fill", r.Table("future", "value unchanged after the refused second Fill"), int64(n))
 }
 
 func futureCase[T comparable](c *vkit.Case, tname string, x, y T) bool {
@@ -272,7 +273,9 @@ func futureCase[T comparable](c *vkit.Case, tname string, x, y T) bool {
 		r.Count("future-waiters", w.Kind+" / "+w.Phase, 1)
 	}
 
-	// A second Fill panics (documented). What it leaves in the Future is recorded only.
+	// A second Fill panics (documented) and is refused: every Wait / WaitContext, before and after
+	// it, returns the first value (the Future "delivers the single value it was filled with ... and
+	// never changes afterwards"). Nobody is reading while the refused Fill runs.
 	r.Eval(1)
 	p2 := vkit.Try(func() { f.Fill(y) })
 	if p2 == nil {
@@ -280,17 +283,30 @@ func futureCase[T comparable](c *vkit.Case, tname string, x, y T) bool {
 		return true
 	}
 	r.Count("future", "second Fill panicked", 1)
-	var after T
-	if p := vkit.Try(func() { after = f.Wait() }); p == nil {
-		switch after {
-		case x:
-			r.Count("future-outside-statement", "value after the panicking second Fill: unchanged", 1)
-		case y:
-			r.Count("future-outside-statement", "value after the panicking second Fill: overwritten (recorded, not judged)", 1)
-		default:
-			r.Count("future-outside-statement", "value after the panicking second Fill: neither", 1)
+	for i := 0; i < 3; i++ {
+		var after T
+		var err error
+		how := "Wait"
+		p := vkit.Try(func() {
+			if i == 1 {
+				how = "WaitContext"
+				after, err = f.WaitContext(context.Background())
+			} else {
+				after = f.Wait()
+			}
+		})
+		r.Eval(1)
+		if p != nil || err != nil {
+			c.Violation("wait-after-refused-fill", fmt.Sprintf("Future[%s]: %s after a refused second Fill failed: panic=%v err=%v", tname, how, p, err), witness(nil))
+			return true
+		}
+		if after != x {
+			c.Violation("future-value-changed-by-refused-fill", fmt.Sprintf("Future[%s]: filled with %v (which every earlier waiter received); a second Fill(%v) panicked as documented, yet %s now returns %v",
+				tname, x, y, how, after), witness(map[string]any{"second_fill_value": fmt.Sprint(y), "returned_afterwards": fmt.Sprint(after)}))
+			return true
 		}
 	}
+	r.Count("future", "value unchanged after the refused second Fill", 1)
 
 	r.Count("future", "scenarios", 1)
 	before, later := 0, 0
